@@ -237,13 +237,15 @@ func (smpStateExpect1) startAuthenticate(c *Conversation, question string, mutua
 		return nil, errCantAuthenticateWithoutEncryption
 	}
 
-	// Using ssid here should always be safe - we can't be in an encrypted state without having gone through the AKE
-	c.smp.secret = generateSMPSecret(c.ourCurrentKey.PublicKey().Fingerprint(), c.theirKey.Fingerprint(), c.ssid[:], mutualSecret, c.version)
-
 	s1, err := c.generateSMP1()
 	if err != nil {
 		return nil, errShortRandomRead
 	}
+
+	// Only now that the new run can really be started does its secret replace
+	// the one of a run that may still be going on.
+	// Using ssid here should always be safe - we can't be in an encrypted state without having gone through the AKE
+	c.smp.secret = generateSMPSecret(c.ourCurrentKey.PublicKey().Fingerprint(), c.theirKey.Fingerprint(), c.ssid[:], mutualSecret, c.version)
 
 	if question != "" {
 		s1.msg.hasQuestion = true
